@@ -6,7 +6,7 @@ use super::recon::*;
 use crate::{
     refmodel::ModelReplica,
     report::Report,
-    universe::{ns_id, show_entries, Spec},
+    universe::{ns_id, show_entries, Spec, Val},
     util::{catch, fnv},
     Ctx, PropDef, Tier,
 };
@@ -22,8 +22,8 @@ pub fn def() -> PropDef {
             "non-default reconciliation parameters are injected through the SyncConfig::default() override hook; Replica itself always uses the default",
         ],
         bound: |t| match t {
-            Tier::Quick => json!({"families": ["S12<=3: all ordered pairs, default parameters, memory", "large family (7-entry base, <=2 substitutions): base<->variant, default, memory", "all pairs of subsets of 8 flat keys under (max_set_size 1, split_factor 3)", "S12<=2 non-trivial pairs: parameters (1,3),(2,2),(3,4) in memory, default on file-backed"], "message_bound": "4 + 2*(|SA|+|SB|)"}),
-            Tier::Thorough => json!({"families": ["flat keys: all 256^2 pairs of subsets of 8 under settings (1,4) (1,5) (2,3) (4,2) (5,3)", "S16<=3: all ordered pairs, default, memory", "S24<=2: all ordered pairs, all four parameter settings, memory; non-trivial pairs default on file", "large family (7-entry base, <=2 substitutions): all ordered pairs default memory; base<->variant all parameters both backends", "all pairs of subsets of 9 flat keys under (1,3), (3,4), (2,2)"], "message_bound": "4 + 2*(|SA|+|SB|)"}),
+            Tier::Quick => json!({"families": ["S12<=3: all ordered pairs, default parameters, memory", "large family (7-entry base, <=2 substitutions): base<->variant, default, memory", "all pairs of subsets of 8 flat keys under (max_set_size 1, split_factor 3)", "S12<=2 non-trivial pairs: parameters (1,3),(2,2),(3,4) in memory, default on file-backed", "big sets: 4 shapes of 300 entries per side, both initiators"], "message_bound": "4 + 2*(|SA|+|SB|)"}),
+            Tier::Thorough => json!({"families": ["flat keys: all 256^2 pairs of subsets of 8 under settings (1,4) (1,5) (2,3) (4,2) (5,3)", "S16<=3: all ordered pairs, default, memory", "S24<=2: all ordered pairs, all four parameter settings, memory; non-trivial pairs default on file", "large family (7-entry base, <=2 substitutions): all ordered pairs default memory; base<->variant all parameters both backends", "all pairs of subsets of 9 flat keys under (1,3), (3,4), (2,2)", "big sets: 4 shapes of 1100 entries per side, both initiators, also (3,4), file-backed, actor-held"], "message_bound": "4 + 2*(|SA|+|SB|)"}),
         },
         run,
         replay,
@@ -259,6 +259,36 @@ fn run(ctx: &Ctx, report: &mut Report) {
         for a in &flat {
             for b in &flat {
                 exec_rc(report, a, b, (1, 3), BackendKind::Actor, None);
+            }
+        }
+    }
+    // big sets: hundreds of entries per side (many levels of range splitting, long messages),
+    // shapes: everything against nothing, interleaved halves, overlapping thirds, and equal sets
+    // that differ in three newer versions and one newer deletion marker covering a fifth
+    {
+        let n: usize = if ctx.quick() { 300 } else { 1100 };
+        let key = |i: usize| format!("k{i:04}").into_bytes();
+        let all: Vec<Spec> = (0..n).map(|i| Spec::new(0, (i % 2) as u8, &key(i), 1, Val::X)).collect();
+        let evens: Vec<Spec> = all.iter().step_by(2).cloned().collect();
+        let odds: Vec<Spec> = all.iter().skip(1).step_by(2).cloned().collect();
+        let first: Vec<Spec> = all[..2 * n / 3].to_vec();
+        let last: Vec<Spec> = all[n / 3..].to_vec();
+        let mut newer = all.clone();
+        for i in [0, n / 2, n - 1] {
+            newer[i] = Spec::new(0, (i % 2) as u8, &key(i), 2, Val::Y);
+        }
+        // a marker of author 0 at the prefix "k00": supersedes that author's k0000..k0099
+        newer.push(Spec::new(0, 0, b"k00", 3, Val::Del));
+        let shapes: Vec<(Vec<Spec>, Vec<Spec>)> = vec![(all.clone(), vec![]), (evens, odds), (first, last), (all.clone(), newer)];
+        for (x, y) in shapes {
+            let (sx, sy) = (state_of(x), state_of(y));
+            report.count("big_set_pairs", 2);
+            exec_rc(report, &sx, &sy, DEFAULT_CFG, BackendKind::Mem, None);
+            exec_rc(report, &sy, &sx, DEFAULT_CFG, BackendKind::Mem, None);
+            if !ctx.quick() {
+                exec_rc(report, &sx, &sy, (3, 4), BackendKind::Mem, None);
+                exec_rc(report, &sy, &sx, DEFAULT_CFG, BackendKind::File, None);
+                exec_rc(report, &sx, &sy, DEFAULT_CFG, BackendKind::Actor, None);
             }
         }
     }
